@@ -50,6 +50,43 @@ PROBES = ["first_import_generated_leaf", "first_import_net_packet_module", "impo
 CHILD = os.path.join(VERIF_DIR, "sim", "child.py")
 
 
+_HDR = '<?xml version="1.0" encoding="UTF-8"?>\n'
+_EMPTY = _HDR + "<protocol>\n</protocol>\n"
+# known finding, probed by a fixed input: a root/map type referring to a type of a packet directory makes the
+# generated client package load before eolib.protocol.net, which then star-imports it half-initialised
+DIRECTED = [{
+    "name": "reference-from-map-into-packet-directory",
+    "tree": {
+        "protocol.xml": _EMPTY, "pub/protocol.xml": _EMPTY, "pub/server/protocol.xml": _EMPTY,
+        "net/server/protocol.xml": _EMPTY,
+        "map/protocol.xml": _HDR + """<protocol>
+    <struct name="MapThing">
+        <field name="c" type="ByteCoords"/>
+    </struct>
+</protocol>
+""",
+        "net/client/protocol.xml": _HDR + """<protocol>
+    <struct name="ByteCoords">
+        <field name="x" type="byte"/>
+    </struct>
+    <packet family="Init" action="Init">
+        <field name="x" type="char"/>
+    </packet>
+</protocol>
+""",
+        "net/protocol.xml": _HDR + """<protocol>
+    <enum name="PacketFamily" type="byte">
+        <value name="Init">255</value>
+    </enum>
+    <enum name="PacketAction" type="byte">
+        <value name="Init">255</value>
+    </enum>
+</protocol>
+""",
+    },
+}]
+
+
 def generate(streams, tier):
     rng = streams.get("spec")
     tree = specgen.gen_tree(rng, "small" if rng.random() < 0.5 else "full")
@@ -102,6 +139,18 @@ def execute(plan, env):
     res = Result()
     res.evaluations = 0
     tr = Trace(keep=env.keep_trace)
+    if "sequence" not in plan and "directed" not in plan and plan.get("seed_index") == 0:
+        for d in DIRECTED:
+            sub = execute({"tree": d["tree"], "tier": plan.get("tier"), "order_seed": 1, "sequences": 1,
+                           "directed": d["name"]}, env)
+            res.evaluations += sub.evaluations
+            res.known.extend(sub.known)
+            if sub.violation:
+                sub.violation["directed_tree"] = d["tree"]
+                sub.violation["directed"] = d["name"]
+                res.violation = sub.violation
+                res.digest = tr.digest()
+                return res
     ws = env.ws
     try:
         ws.generate(plan["tree"])
@@ -220,6 +269,8 @@ def execute(plan, env):
                         f"after imports {seq}: {what} {detail} ({len(problems)} problems in total)")
         if viol:
             sig = f"C20|{viol[0]}|{viol[1]}"
+            if plan.get("directed"):
+                sig = f"C20|{plan['directed']}|{viol[0]}"
             v = {"kind": viol[0], "signature": sig, "detail": viol[2], "step": tr.steps, "sequence": seq}
             if sig in env.known:
                 if not any(kf["signature"] == sig for kf in res.known):
@@ -241,6 +292,8 @@ def shrink(plan, still_fails, budget):
     res = core.probe(plan)
     if res.violation is None:
         return plan
+    if res.violation.get("directed"):
+        plan = dict(plan, tree=res.violation["directed_tree"], directed=res.violation["directed"])
     best = dict(plan, sequence=res.violation["sequence"])
     if not still_fails(best):
         return plan
@@ -257,10 +310,11 @@ def shrink(plan, still_fails, budget):
         best = cand
     # smaller tree: try the skeleton
     from ..workspace import skeleton_tree
-    cand = dict(best, tree=skeleton_tree())
-    budget[0] -= 1
-    if still_fails(cand):
-        best = cand
+    if not best.get("directed"):
+        cand = dict(best, tree=skeleton_tree())
+        budget[0] -= 1
+        if still_fails(cand):
+            best = cand
     return best
 
 
